@@ -568,7 +568,52 @@ def _skeletons(repo, rep):
                   construct="cancel-order", where=L.where(g))
 
 
+def content_node_total(repo):
+    """_make_content_node builds, for every expression text, a Content node
+    over Value(expression) with the escape set chosen by the keyword -- no
+    shortcut that by-passes evaluation or escaping.  -> (ok, detail)"""
+    f = repo.func("chameleon.zpt.program.MacroProgram._make_content_node")
+    v = L.emission(repo, f.qualname).value
+
+    def tops(x, conds=()):
+        if isinstance(x, A.Alt):
+            yield from tops(x.a, conds + ((x.test, True),))
+            yield from tops(x.b, conds + ((x.test, False),))
+        else:
+            yield conds, x
+    n = 0
+    for conds, leaf in tops(v):
+        n += 1
+        extra = [c for c in conds
+                 if not L.cond_holds([c], "default is None", True) and
+                 not L.cond_holds([c], "default is None", False)]
+        if extra:
+            return False, "a branch on %s decides what is built" % (
+                [t for t, b in extra],)
+        cs = [w for w in A.walk(leaf) if isinstance(w, A.NodeV)
+              and w.kind == "Content"]
+        good = [c for c in cs if len(c.args) >= 3 and
+                A.show(c.args[0]) == "nodes.Value(expression)" and
+                isinstance(c.args[1], A.Alt) and
+                L.decides_on(c.args[1], "key == 'text'") and
+                A.show(L.branch(c.args[1], "key == 'text'", True))
+                == "('&', '<', '>')" and
+                A.show(L.branch(c.args[1], "key == 'text'", False)) == "()"
+                and A.show(c.args[2]) == "translate"]
+        if not good:
+            return False, "no Content(Value(expression), escape-by-keyword," \
+                          " translate) under %s: %s" % (
+                              conds, A.show(leaf, limit=3)[:120])
+    return n >= 1, "%d alternative(s)" % n
+
+
 def _sinks(repo, rep):
+    okc, detail = content_node_total(repo)
+    rep.check(okc, "R01.5", "chameleon.zpt.program.MacroProgram."
+              "_make_content_node", "content / replace / on-error "
+              "expressions always become Content(Value(expression), escape "
+              "set by keyword, translate) -- the only branch is on the "
+              "static default", construct="content-total", detail=detail)
     # 'None / nothing removes': in the dictionary form of tal:attributes an
     # entry is dropped by identity with None only -- '', 0, False are values
     da = repo.func(COMP + "visit_DictAttributes")
